@@ -131,6 +131,7 @@ func runOne(prop string, sc Scenario, tape *simrt.Tape, run int, trace bool, fla
 	dir := filepath.Join(ScratchBase(), fmt.Sprintf("r%d", run))
 	os.RemoveAll(dir)
 	os.MkdirAll(dir, 0777)
+	simrt.ResetSchedTick() // the loop budget of code that runs on the scheduler goroutine is per run
 	own := map[string]string{} // a scenario may set flags of its own: never shared between runs
 	for k, v := range flags {
 		own[k] = v
